@@ -14,9 +14,10 @@ def reseed(seed):
 
 
 KINDS = ["boxed", "ref", "retry", "owned"]
-CONTS = ["vec", "bslice", "arr", "tup", "vecref", "vecmut"]
+CONTS = ["vec", "bslice", "arr", "tup", "vecref", "vecmut", "refvec"]
 # "vecref": Vec<&T> (the crate's impls for shared references; not OwnedLockable: checked constructors only, never an owned
-# collection); "vecmut": Vec<&mut T> (the impls for exclusive references, which own their referent)
+# collection); "vecmut": Vec<&mut T> (the impls for exclusive references, which own their referent); "refvec": &Vec<T>, the
+# input of a checked constructor is itself a thin reference to the container (`try_new(&vec)`)
 
 
 class B:
@@ -67,7 +68,9 @@ class B:
             cont = "vec"
         if cont == "vecref" and kind == "owned":
             cont = "vecmut"
-        if cont == "vecref":
+        if cont == "refvec" and kind == "owned":
+            cont = "vec"
+        if cont in ("vecref", "refvec"):
             ctor = "try"
         if ctor is None:
             # the unchecked constructors build the same collection (the builder never passes duplicates); new_ref only
